@@ -2,6 +2,7 @@
   C11 — Each received packet gets at most one immutable acknowledgement.
 -/
 import IbcVerif.Lemmas.ChainOk2
+import IbcVerif.Lemmas.ChainExamples
 namespace IbcVerif.C11
 open IbcVerif IbcVerif.Chain
 
@@ -84,5 +85,10 @@ theorem async_write_removes_packet (s s' : ChainState) (env : Env) (dst : Id) (s
   simp
 
 example : Inv2 Chain.init := Inv2.init
+
+/-- non-vacuity: on a state with an OPEN channel end the first acknowledgement write succeeds … -/
+example : (writeAckV1 Ex.sOpen Ex.pkIn (some "aa")).toBool = true := by decide
+/-- … and asynchronous writes without a stored packet are really rejected by `step` -/
+example : (step Ex.sOpen ⟨Ex.envOK, .writeAckV2 "channel-0" 1 ["aa"]⟩).2 = .err e2InvalidAck := by decide
 
 end IbcVerif.C11
